@@ -135,10 +135,16 @@ class FakeSocket:
         if ln.recv_error:
             ln.recv_error = False
             raise OSError("scripted receive failure")
+        ln.deliver_due(ln.clock.t)
         if not ln.rx:
-            ln.clock.sleep(1.0)
-            ln.reads.append({"asked": int(n), "got": 0})
-            raise real_socket.timeout("timed out")
+            tmo = getattr(self, "timeout", None) or 1.0
+            arr = ln.deliver_due(ln.clock.t + tmo)          # a datagram still in flight arrives within the socket time-out
+            if arr is not None:
+                ln.clock.t = max(ln.clock.t, arr)
+            else:
+                ln.clock.sleep(tmo)
+                ln.reads.append({"asked": int(n), "got": 0})
+                raise real_socket.timeout("timed out")
         got = bytes(ln.rx[:n])
         ln.rx.clear()                       # one datagram
         ln.reads.append({"asked": int(n), "got": len(got)})
@@ -279,6 +285,8 @@ class RecClientDecoder:
 CLIENTS = {
     "tcp": ("tcp", lambda kw: CS.ModbusTcpClient("h", 502, **kw)),
     "tcp+rtu": ("rtu", lambda kw: CS.ModbusTcpClient("h", 502, framer=TX.ModbusRtuFramer, **kw)),
+    "tcp+ascii": ("ascii", lambda kw: CS.ModbusTcpClient("h", 502, framer=TX.ModbusAsciiFramer, **kw)),
+    "tcp+binary": ("bin", lambda kw: CS.ModbusTcpClient("h", 502, framer=TX.ModbusBinaryFramer, **kw)),
     "udp": ("tcp", lambda kw: CS.ModbusUdpClient("h", 502, **kw)),
     "serial-rtu": ("rtu", lambda kw: CS.ModbusSerialClient(method="rtu", port="/dev/x", baudrate=9600, **kw)),
     "serial-ascii": ("ascii", lambda kw: CS.ModbusSerialClient(method="ascii", port="/dev/x", **kw)),
